@@ -8,7 +8,8 @@
    the width of the first one. *)
 From Coq Require Import ZArith List Bool Lia Ring Field QArith Qcanon.
 From IBL.lib Require Import PyInt.
-From IBL.C05 Require Import Model Proofs Run.
+From IBL Require C07.Model C07.Sums C07.Proofs C08.Model.
+From IBL.C05 Require Import Model Proofs Agc Joint Run Stages.
 Import ListNotations.
 
 Local Notation pos c coll := (positions c coll O).
@@ -67,6 +68,23 @@ Proof.
 Qed.
 Print Assumptions C05_car_collection_length_checked.
 
+(* REFUTED for integer-typed x (F-C05-e): with a collection the result is scattered into
+   np.zeros_like(x), i.e. truncated to integers; the group mean of the output is then not
+   zero and the rows differ from the per-group call (which returns floats).  Witness
+   x = [[0],[0],[2]], one group, operator 'average': exact -2/3, -2/3, 4/3; returned 0, 0, 1. *)
+Theorem C05_car_groups_integer_dtype_refuted :
+  exists (x : list (list Q)) coll out,
+    qcar_int 1 (Some coll) x = Some out /\
+    mean Q q0 q1 qadd qdiv (col Q q0 0 out) <> q0 /\
+    qcar 1 (Some coll) x <> Some out.
+Proof.
+  exists [[0%Q]; [0%Q]; [2%Q]], [0; 0; 0]%Z, [[0%Q]; [0%Q]; [1%Q]].
+  destruct car_int_groups_witness as (A & B & C). split; [exact A|]. split.
+  - rewrite C. discriminate.
+  - rewrite B. discriminate.
+Qed.
+Print Assumptions C05_car_groups_integer_dtype_refuted.
+
 (* with groups: zero median at every sample within each channel group *)
 Theorem C05_car_groups_zero_median :
   forall R rO rI radd rmul rsub rdiv ropp rinv rleb reqb,
@@ -121,15 +139,35 @@ Print Assumptions C05_fk_groups_same_settings.
 
 (* ---- gain control --------------------------------------------------------- *)
 
-(* agc returns (data, gain) of the input's shape; on a dead channel (gain sums to 0)
-   the data row is the input row; on a live channel data * gain = input at every
-   sample whose gain is non-zero.
-   PARTIAL with respect to the property ("product is the input" outright): the full
-   statement additionally needs gain_ij <> 0 on live rows, which holds for w >= 0,
-   epsilon > 0 over an ordered field (gain_ij >= epsilon * S / ns > 0); that order
-   argument is not formalised here — the run-time oracle checks the product on the
-   implementation for every generated case. *)
-Theorem C05_agc_product_partial :
+(* agc(x, wl, si, epsilon) over an ordered field (order_axioms: <=? is a total-order test
+   compatible with + and *, |.| >= 0 and vanishes only at 0), for a non-negative window
+   whose centre tap is non-zero (every Hann window of odd length >= 3, and [1]) and
+   epsilon > 0:  data and gain have the input's shape and
+       data[i][j] * gain[i][j] = x[i][j]      at EVERY sample of EVERY channel;
+   on a live channel (gain sums to non-zero) no gain sample vanishes, so data = x / gain
+   is a genuine division; a dead channel is returned unchanged and is identically zero. *)
+Theorem C05_agc_product :
+  forall R rO rI radd rmul rsub rdiv ropp rinv rleb reqb (rabs : R -> R),
+  ordered_field R rO rI radd rmul rsub rdiv ropp rinv rleb reqb ->
+  order_axioms R rO rI radd rmul rleb rabs ->
+  forall (w : list R) (eps : R),
+  Forall (fun v => rleb rO v = true) w ->
+  w <> [] /\ nth ((length w - 1) / 2) w rO <> rO ->
+  rleb rO eps = true -> eps <> rO ->
+  forall (x : list (list R)) i j, (i < length x)%nat -> (j < length (nth i x []))%nat ->
+  let r := nth i x [] in
+  let o := nth i (fst (agc R rO rI radd rmul rdiv reqb rabs w eps x)) [] in
+  let g := nth i (snd (agc R rO rI radd rmul rdiv reqb rabs w eps x)) [] in
+  length o = length r /\ length g = length r /\
+  rmul (nth j o rO) (nth j g rO) = nth j r rO /\
+  (rsum R rO radd g <> rO -> nth j g rO <> rO) /\
+  (rsum R rO radd g = rO -> o = r /\ nth j r rO = rO).
+Proof. exact agc_product. Qed.
+Print Assumptions C05_agc_product.
+
+(* without the order hypotheses (any field): shapes; a dead channel is returned unchanged;
+   on a live channel data * gain = input wherever the gain sample is non-zero *)
+Theorem C05_agc_product_any_field :
   forall R rO rI radd rmul rsub rdiv ropp rinv rleb reqb (rabs : R -> R),
   ordered_field R rO rI radd rmul rsub rdiv ropp rinv rleb reqb ->
   forall w eps (x : list (list R)) i, (i < length x)%nat ->
@@ -146,7 +184,7 @@ Proof.
   intros until 1. destruct H as (F & T & C & L & E). intros w eps x i Hi.
   exact (agc_spec R rO rI radd rmul rsub rdiv ropp rinv rleb reqb rabs F T C L E w eps x i Hi).
 Qed.
-Print Assumptions C05_agc_product_partial.
+Print Assumptions C05_agc_product_any_field.
 
 (* ---- destripe: channels outside the brain --------------------------------- *)
 
@@ -183,6 +221,41 @@ Proof.
   intros i Hi. apply inside_brain_spec in Hi. now apply H.
 Qed.
 Print Assumptions C05_outside_not_an_input.
+
+(* the order of destripe's stages is fixed: temporal filter, ADC re-alignment, bad-channel
+   interpolation, spatial filter (stage codes 1, 2, 3, 4; 2 absent without a probe version,
+   3 absent without labels); the trace compared with the implementation lists these codes *)
+Theorem C05_destripe_stage_order :
+  forall R butter1 fshift1 interp spatial shifts labels (x : list (list R)) nc,
+  destripe R butter1 fshift1 interp spatial shifts labels x =
+  fold_left (apply_stage R butter1 fshift1 interp spatial shifts labels)
+            (stage_codes (match shifts with Some _ => true | None => false end) labels) x /\
+  map fst (destripe_trace nc (match shifts with Some _ => true | None => false end) labels) =
+  stage_codes (match shifts with Some _ => true | None => false end) labels.
+Proof.
+  intros. split; [symmetry; apply destripe_staged_eq|apply destripe_trace_codes].
+Qed.
+Print Assumptions C05_destripe_stage_order.
+
+(* the order matters: interpolating before re-aligning gives a different array (Q witness) *)
+Theorem C05_stage_order_matters :
+  let run codes := fold_left (apply_stage Q (fun r => r) q_add_all q_interp (fun m => m)
+                                (Some order_demo_shifts) (Some [0%Z; 1%Z])) codes order_demo_in in
+  run [1%Z; 2%Z; 3%Z; 4%Z] <> run [1%Z; 3%Z; 2%Z; 4%Z].
+Proof.
+  cbv zeta. destruct stage_order_matters as [-> ->]. discriminate.
+Qed.
+Print Assumptions C05_stage_order_matters.
+
+(* REFUTED (F-C05-g): the kfilt body does not preserve the number of channels when ntr_pad
+   exceeds it, even for a shape-preserving spatial filter: np.flipud(xf[:ntr_pad]) has only nx
+   rows but xf[ntr_pad:-ntr_pad] removes ntr_pad rows from each side. *)
+Theorem C05_kfilt_padding_short_block_refuted :
+  exists (H : Z -> list (list Q) -> list (list Q)) p (x : list (list Q)),
+    (forall b m, length (H b m) = length m) /\
+    length (kfilt_base Q q0 q1 qadd qmul qdiv qeqb qabs H (fun _ _ => []) (fun _ => []) q0 p x) <> length x.
+Proof. exact kfilt_short_block_refuted. Qed.
+Print Assumptions C05_kfilt_padding_short_block_refuted.
 
 (* ---- the exact-arithmetic limit of "at least 40 dB" ------------------------ *)
 
@@ -223,6 +296,44 @@ Theorem C05_stripe_annihilated :
 Proof. exact destripe_kills_aligned_stripe. Qed.
 Print Assumptions C05_stripe_annihilated.
 
+(* The same with the alignment step made concrete (joint with C07 and C08).
+   C, w, `setting`: C07's field with involution and the FFT twiddle (C = the complex
+   numbers, w k = e^{2 pi i k/n}); `phase s k` = np.exp(1j*np.angle(rfft(dephas))[k]*s)
+   with C07's hypotheses (phase(-s)*phase(s) = 1, DC factor 1); dly k = the shift k/n_cycles.
+   A real trigonometric polynomial with all harmonics strictly below Nyquist (`stripe`,
+   `band_limited`) hits all channels at the same instant; channel c records it ADVANCED by
+   its slot in the ADC cycle, `shift_closed g c` / n_cycles (`recorded`).  destripe shifts
+   row c with C07's fshift (`fshift_rows`) by the table that C08's model of
+   neuropixel.adc_shifts returns (`adc_shifts g nc = Some (tbl, _)`).  Then the re-aligned
+   rows all equal the un-skewed waveform, and car (both operators) and the kfilt body
+   return exactly zero.  (The temporal Butterworth step is not part of this statement:
+   sosfiltfilt is not shift-equivariant at the window edges — see finding F-C05-d.) *)
+Theorem C05_stripe_annihilated_joint :
+  forall (C : Type) (c0 c1 : C) (cadd cmul : C -> C -> C) (copp cinv cconj : C -> C) (n : nat) (w : Z -> C)
+         (rleb reqb : C -> C -> bool) (Sh : Type) (shopp : Sh -> Sh) (phase : Sh -> nat -> C),
+  C07.Proofs.setting C c0 c1 cadd cmul copp cinv cconj n w ->
+  ordered_field C c0 c1 cadd cmul (C07.Sums.fsub C cadd copp) (C07.Sums.fdiv C cmul cinv) copp cinv rleb reqb ->
+  (forall s k, cmul (phase (shopp s) k) (phase s k) = c1) ->
+  (forall s, phase s 0%nat = c1) ->
+  forall (g : C08.Model.gen) (nc : nat) tbl adcs,
+  (1 <= nc <= C08.Model.NC)%nat -> C08.Model.adc_shifts g nc = Some (tbl, adcs) ->
+  forall (dly : Z -> Sh) (dc : C) (terms : list (C * nat)),
+  (2 <= n)%nat -> cconj dc = dc -> band_limited C n terms ->
+  let x := map (fun c => recorded C cadd cmul cconj n w Sh shopp phase dc terms
+                           (dly (C08.Model.shift_closed g c))) (zrange nc) in
+  let ps := map (fun k => table C n Sh phase (dly k)) tbl in
+  exists x2,
+    C07.Model.fshift_rows C c0 c1 cadd cmul cinv cconj n w ps x = Some x2 /\
+    length x2 = nc /\ all_rows C x2 (common C c1 cadd cmul cconj n w dc terms) /\
+    (forall op, (op = 0 \/ op = 1)%Z ->
+       all_zero C c0 (car_base C c0 c1 cadd (C07.Sums.fsub C cadd copp) (C07.Sums.fdiv C cmul cinv) rleb op x2)) /\
+    (forall rabs H taper window eps p,
+       (forall b m r, all_rows C m r -> all_zero C c0 (H b m)) ->
+       (k_ntr_tap p = 0 \/ (k_ntr_tap p = -1 /\ k_ntr_pad p <= 0))%Z ->
+       all_zero C c0 (kfilt_base C c0 c1 cadd cmul (C07.Sums.fdiv C cmul cinv) reqb rabs H taper window eps p x2)).
+Proof. exact stripe_annihilated_joint. Qed.
+Print Assumptions C05_stripe_annihilated_joint.
+
 (* ---- ADC delay table ------------------------------------------------------- *)
 
 (* adc_shifts: channel c of the 384 sits in slot (c mod 2*adc_channels) / 2 of its
@@ -241,6 +352,9 @@ Example C05_ordered_field_inhabited :
   ordered_field Qc 0%Qc 1%Qc Qcplus Qcmult Qcminus Qcdiv Qcopp Qcinv qcleb qceqb.
 Proof. exact ordered_field_Qc. Qed.
 Print Assumptions C05_ordered_field_inhabited.
+Example C05_order_axioms_inhabited : order_axioms Qc 0%Qc 1%Qc Qcplus Qcmult qcleb Qcabs.Qcabs.
+Proof. exact order_axioms_Qc. Qed.
+Print Assumptions C05_order_axioms_inhabited.
 
 (* the model run on concrete inputs (Q instance of Run.v) *)
 Local Open Scope Z_scope.
